@@ -1,5 +1,5 @@
 SPECIFICATION Spec
 CONSTANTS Emit = TRUE
- Bound = 2048
+ Bound = 1024
  Modes = {"fn","st"}
 CHECK_DEADLOCK FALSE
